@@ -21,6 +21,7 @@ import (
 	"google.golang.org/protobuf/proto"
 
 	"github.com/atlassian/gostatsd"
+	"github.com/atlassian/gostatsd/internal/flush"
 	"github.com/atlassian/gostatsd/internal/verif/lib/fx"
 	"github.com/atlassian/gostatsd/internal/verif/vrt"
 	"github.com/atlassian/gostatsd/internal/verif/vsched"
@@ -257,6 +258,14 @@ func fold(ss []sd) []sd {
 	return out
 }
 
+// forwarderFromConfig builds the forwarder the way the server does: from the http-transport configuration keys.
+func forwarderFromConfig(pool *transport.TransportPool, fc flush.Coordinator, kv map[string]any) (*statsd.HttpForwarderHandlerV2, error) {
+	v := viper.New()
+	kv["api-endpoint"] = "http://up.invalid"
+	v.Set("http-transport", kv)
+	return statsd.NewHttpForwarderHandlerV2FromViper(fx.Quiet(), v, pool, fc)
+}
+
 func newForwarder(c comp, rec *fx.Recorder) (*statsd.HttpForwarderHandlerV2, *bridge, error) {
 	srv, err := web.NewHttpServer(fx.Quiet(), rec, "rx", "127.0.0.1:0", false, false, true, false, nil, nil)
 	if err != nil {
@@ -268,7 +277,7 @@ func newForwarder(c comp, rec *fx.Recorder) (*statsd.HttpForwarderHandlerV2, *br
 	hc, _ := pool.Get("default")
 	hc.Client.Transport = br
 	hc.Client.Timeout = 0
-	h, err := statsd.NewHttpForwarderHandlerV2(fx.Quiet(), "default", "http://up.invalid", 1, 2, 1, c.Type != "none", c.Type, c.Level, time.Second, time.Second, nil, nil, pool, nil)
+	h, err := forwarderFromConfig(pool, nil, map[string]any{"consolidator-slots": 1, "max-requests": 2, "concurrent-merge": 1, "compress": c.Type != "none", "compression-type": c.Type, "compression-level": c.Level, "max-request-elapsed-time": time.Second, "flush-interval": time.Second})
 	return h, br, err
 }
 
